@@ -1273,7 +1273,33 @@ class Interp:
                 bound[n] = self.eval(d, fv.env)
         return bound
 
+    KNOWN_DECORATORS = ("staticmethod", "classmethod", "property", "inherit_docstring", "docstring_from", "format_docstring", "dataclass", "wraps", "no_type_check", "overload", "abstractmethod", "cached_property", "lru_cache", "cache", "parametrize", "fixture")
+
     def call_funcval(self, fv: FuncVal, args: List[Any], kwargs: Dict[str, Any]) -> Any:
+        names = fv.deco_names()
+        if fv.module.name.startswith("unit_scaling"):
+            for dn in names:
+                if dn not in self.KNOWN_DECORATORS:
+                    # decorators are not executed: one whose contract is not known must stop the job, not be dropped
+                    raise OutOfReach(f"decorator @{dn} on {fv.qualname} has no contract")
+        if "lru_cache" in names or "cache" in names:
+            # ASSUMED functools.lru_cache / cache (unbounded or large enough): one evaluation per distinct
+            # argument tuple, the SAME result object afterwards (object identity matters to callers)
+            def _key(v: Any) -> Any:
+                if isinstance(v, (bool, int, str, Fraction, type(None))):
+                    return (type(v).__name__, v)
+                if isinstance(v, tuple):
+                    return ("tuple",) + tuple(_key(x) for x in v)
+                raise OutOfReach(f"lru_cache key of {fv.qualname} is not a concrete hashable value: {type(v).__name__}")
+
+            key = (tuple(_key(a_) for a_ in args), tuple(sorted((k_, _key(v_)) for k_, v_ in kwargs.items())))
+            memo = fv.attrs.setdefault("__lru_cache__", {})
+            if key not in memo:
+                memo[key] = self._call_funcval(fv, args, kwargs)
+            return memo[key]
+        return self._call_funcval(fv, args, kwargs)
+
+    def _call_funcval(self, fv: FuncVal, args: List[Any], kwargs: Dict[str, Any]) -> Any:
         q = self.qual_of(fv)
         bound0 = self.bind(fv, args, kwargs)  # arity errors surface before anything else
         self._validate_contract(fv, args, kwargs, bound0)
